@@ -84,7 +84,9 @@ def c05(res, rng, tier):
                 import pkl
                 same = got == want or pkl.canon(bytes.fromhex(got[3:])) == pkl.canon(bytes.fromhex(hexb))
             else:
-                same = got.split(" ")[0] == want.split(" ")[0] and (not got.startswith("err") or got == want)
+                # which of several documented limitations is met first depends on map iteration order
+                doc = ("err p0persid", "err p0unicode", "err p0123global")
+                same = got.split(" ")[0] == want.split(" ")[0] and (not got.startswith("err") or got == want or (got in doc and want in doc))
             if not same:
                 res.violation("re-encoding the decoded object itself at protocol %d gives %s, a copy of the same value gives %s"
                               % (p, got[:120], want[:120]),
